@@ -253,7 +253,7 @@ LOOSE_GRAD = {"het_exp": 1e-4, "het_cosh": 1e-4, "het_step": 1e-4, "het_relu": 1
 CLASSES = ["ConjugateFactor", "OneRankFactor", "LinearFactor", "ConstantFactor", "GaussianMeasure",
            "GaussianDiagMeasure", "GaussianPDF", "GaussianDiagPDF", "ConditionalGaussianPDF",
            "ConditionalGaussianDiagPDF", "ConditionalIdentityGaussianPDF",
-           "ConditionalIdentityDiagGaussianPDF"]
+           "ConditionalIdentityDiagGaussianPDF", "NNControlGaussianConditional"]
 
 
 def cells(tier, seed):
@@ -371,9 +371,12 @@ def run_program(cell, rec, seed):
 
 
 # ------------------------------------------------------------------------------ round trips
-def instance(cls, rng, cached):
+def instance(cls, rng, cached, R=2, D=2):
     L = build.lib()
-    R, D = 2, 2
+    if cls == "NNControlGaussianConditional":
+        o, t, kw = build.mk_conditional("nn", rng, 1, D, D + 1, kappa=10.0)
+        t["u"] = kw["u"]
+        return o, t
     if cls == "ConjugateFactor":
         o, t = build.mk_factor("general", rng, R, D)
     elif cls == "OneRankFactor":
@@ -397,10 +400,13 @@ def instance(cls, rng, cached):
     return o, t
 
 
-def probe(o, x):
+def probe(o, x, u=None):
     """the function an object represents, at probe points."""
     if hasattr(o, "evaluate_ln"):
         return np.asarray(o.evaluate_ln(x))
+    if u is not None:
+        q = o.condition_on_x_u(x, u)
+        return np.asarray(q.evaluate_ln(J(np.zeros((2, q.D)))))
     return np.asarray(o.condition_on_x(x).evaluate_ln(x))
 
 
@@ -409,22 +415,29 @@ def run_roundtrip(cell, rec, seed):
     from jax import numpy as jnp
 
     cls = cell["cls"]
-    is_cond = cls.startswith("Conditional")
-    variants = (False, True) if cls in ("GaussianMeasure", "GaussianDiagMeasure") else (False,)
-    for cached in variants:
-        rng = gen.rng_for(seed, "C18rt", cls, cached)
-        o, t = instance(cls, rng, cached)
-        x = J(gen.vec(rng, 3, 2))
-        ref = probe(o, x)
+    is_cond = "Conditional" in cls
+    variants = [(False, 2, 2)]
+    if cls in ("GaussianMeasure", "GaussianDiagMeasure"):
+        variants.append((True, 2, 2))
+    # a second instance of the same class with a different configuration (dimension, batch,
+    # control function) crosses the same boundaries afterwards in the same process
+    variants.append((False, 1, 3))
+    for (cached, R_, D_) in variants:
+        rng = gen.rng_for(seed, "C18rt", cls, cached, R_, D_)
+        o, t = instance(cls, rng, cached, R=R_, D=D_)
+        u = t.get("u") if isinstance(t, dict) else None
+        x = J(gen.vec(rng, 3, o.Dx if is_cond else D_))
+        ref = probe(o, x, u)
         ns = 1.0 + np.max(np.abs(ref))
-        info = {"class": cls, "cached": cached}
-        tag = f"{cls}{'[cached]' if cached else ''}"
+        info = {"class": cls, "cached": cached, "R": R_, "D": D_}
+        tag = f"{cls}{'[cached]' if cached else ''}[R={R_},D={D_}]"
 
         def same(name, o2, mech):
             rec.cell([tag, name], True)
             rec.true(f"{name}: same class", type(o2).__name__ == cls, mech=f"{mech}-class:{cls}",
                      detail=dict(info, got=type(o2).__name__))
-            v = _call(rec, name + " probe", lambda: probe(o2, x), info, f"{mech}-probe-raises:{cls}")
+            v = _call(rec, name + " probe", lambda: probe(o2, x, u), info,
+                      f"{mech}-probe-raises:{cls}")
             if v is not None:
                 rec.close(f"{name}: same function", v, ref, ns=ns, detail=info,
                           mech=f"{mech}-value:{cls}")
@@ -441,7 +454,9 @@ def run_roundtrip(cell, rec, seed):
         if r is not None:
             same("jit(identity)", r, "jit-identity")
         # object as jit argument
-        if is_cond:
+        if u is not None:
+            fn = lambda a, xx: a.condition_on_x_u(xx, u).evaluate_ln(J(np.zeros((2, D_))))
+        elif is_cond:
             fn = lambda a, xx: a.condition_on_x(xx).evaluate_ln(xx)
         else:
             fn = lambda a, xx: a.evaluate_ln(xx)
